@@ -516,9 +516,11 @@ class Verifier:
         labs = [l for l, _ in ctx.labels]
         status, model, core = "undecided", None, []
 
-        def attempt(transform, timeout_ms):
+        def attempt(transform, timeout_ms, seed=0):
             s = z3.Solver()
             s.set("timeout", timeout_ms)
+            if seed:
+                s.set("random_seed", seed)
             s.add([transform(f) for f in sym.FACTS.facts])
             s.add([transform(f) for f in ctx.pc])
             s.add(transform(z3.Not(g)))
@@ -530,6 +532,16 @@ class Verifier:
         if r != z3.unsat:
             # (2) exact query
             s, r = attempt(lambda f: f, TIMEOUT_MS)
+        if r == z3.unknown:
+            # (3) solver gave up (time): the verdict must not depend on machine load - retry with other seeds, more time
+            for sd in (7, 23):
+                s, r = attempt(sym.abstract_nl, 2 * TIMEOUT_MS, seed=sd)
+                if r == z3.unsat:
+                    break
+                s2, r2 = attempt(lambda f: f, 2 * TIMEOUT_MS, seed=sd)
+                if r2 != z3.unknown:
+                    s, r = s2, r2
+                    break
         cross = None
         if r == z3.unsat and os.environ.get("VERIF_TIER") == "thorough" and kind != "canary":
             cross = cvc5_crosscheck(s, labs)
